@@ -13,6 +13,9 @@ variable {σ : Type}
 theorem sendPopsFront_eq : sendPopsFront = true := rfl
 theorem timeoutStrict_eq : timeoutStrict = true := rfl
 theorem threadPhaseCodes_eq : threadPhaseCodes = [0, 1, 2, 3, 4] := rfl
+theorem loopPhaseGuarded_eq : loopPhaseGuarded = true := rfl
+theorem loopFuncGuarded_eq : loopFuncGuarded = true := rfl
+theorem queueSendRecordsDest_eq : queueSendRecordsDest = true := rfl
 
 /-! ### trace projections -/
 
@@ -289,9 +292,8 @@ theorem cleanup_frame (e : Engine σ) : Frame e (cleanup e) [] := ⟨rfl, rfl, b
 
 theorem loopFuncPhase_frame (P : Prog σ) (e : Engine σ) : Frame e (loopFuncPhase P e).1 (loopFuncPhase P e).2 := by
   unfold loopFuncPhase
-  by_cases h : (P.loopFunc e.client).2 = true
-  · simp only [h, if_true]; exact ⟨rfl, rfl, by simp [enqs], rfl, rfl⟩
-  · simp only [h]; exact ⟨rfl, rfl, by simp [enqs], rfl, rfl⟩
+  simp only [loopFuncGuarded_eq, Bool.not_true, Bool.and_false, Bool.false_eq_true, if_false]
+  exact ⟨rfl, rfl, by simp [enqs], rfl, rfl⟩
 
 /-! ### an iteration, a step, a run -/
 
